@@ -83,6 +83,11 @@ func runC06(r *Run) {
 	switch scen {
 	case 0:
 		code = c06Code(t.Draw(c06Codes))
+		if t.Pct(60) {
+			// (most of the 65536 codes are unsendable; the runs that go on to the
+			// handshake need a sendable one)
+			code = goodCloseCodes[t.Draw(len(goodCloseCodes))]
+		}
 		reason = strings.Repeat("r", c06ReasonLens[t.Draw(len(c06ReasonLens))])
 	case 1:
 		code = t.Draw(65536)
